@@ -5,4 +5,12 @@ MC_Content == [h \in 1 .. 4 |->
       [] h = 2 -> {}
       [] h = 3 -> {[kind |-> "hdr", h |-> 2], [kind |-> "junk", h |-> 0], [kind |-> "data", h |-> 1]}
       [] h = 4 -> {[kind |-> "hdr", h |-> 1], [kind |-> "data", h |-> 2]}]
+\* thorough tier: six DA heights, the two halves of three blocks spread over them, a height with two junk classes
+MC_ContentBig == [h \in 1 .. 6 |->
+    CASE h = 1 -> {[kind |-> "junk", h |-> 0]}
+      [] h = 2 -> {}
+      [] h = 3 -> {[kind |-> "hdr", h |-> 2], [kind |-> "junk", h |-> 0], [kind |-> "data", h |-> 1]}
+      [] h = 4 -> {[kind |-> "hdr", h |-> 1], [kind |-> "data", h |-> 2]}
+      [] h = 5 -> {[kind |-> "junk", h |-> 0], [kind |-> "junk", h |-> 1]}
+      [] h = 6 -> {[kind |-> "data", h |-> 3], [kind |-> "hdr", h |-> 3]}]
 ============================================================================
